@@ -290,6 +290,113 @@ def r_teval_verbatim(rep, hc):
         rep.inconc("R-TEVAL-VERBATIM", "R-TEVAL-VERBATIM:%s:floor" % hc.fn, "only %d sampling sites in t_eval mode (expected 3)" % n)
 
 
+def r_teval_window(rep, hc):
+    """every interpolated t_eval sample is guarded by a comparison of that same t_eval[i] with the step start xold,
+    in the form that matches the direction of integration (t >= xold - tol forward, t <= xold + tol backward)"""
+    sx = hc.sx
+    xold, x = Poly.atom(hc.pname[1]), Poly.atom(hc.pname[2])
+
+    def is_forward_atom(p):
+        a = p.single_atom() if isinstance(p, Poly) else None
+        if not a or a not in DEFS:
+            return None
+        op, xs = DEFS[a]
+        if len(xs) != 2:
+            return None
+        l, r = xs
+        if op in ("gt", "ge") and l == x and r == xold:
+            return True
+        if op in ("lt", "le") and l == xold and r == x:
+            return True
+        if op in ("lt", "le") and l == x and r == xold:
+            return False
+        if op in ("gt", "ge") and l == xold and r == x:
+            return False
+        return None
+
+    def kind(atom, tv):
+        d = DEFS.get(atom)
+        if not d or len(d[1]) != 2:
+            return None
+        op, (l, r) = d
+        if not (isinstance(l, Poly) and isinstance(r, Poly)):
+            return None
+        def about_xold(q):
+            return "xold" in [hc.pname[1]] and hc.pname[1] in q.atoms() and hc.pname[2] not in q.atoms()
+        if op in ("ge", "gt") and l == tv and about_xold(r):
+            return "fwd"
+        if op in ("le", "lt") and r == tv and about_xold(l):
+            return "fwd"
+        if op in ("le", "lt") and l == tv and about_xold(r):
+            return "bwd"
+        if op in ("ge", "gt") and r == tv and about_xold(l):
+            return "bwd"
+        return None
+
+    if_cond = {}
+    for ev in sx.trace:
+        if ev["kind"] == "if":
+            if_cond[id(ev["node"])] = ev["cond"]
+    if_vals = [ev for ev in sx.trace if ev["kind"] == "ifval"]
+    n = 0
+    for te, ye in push_pairs(hc):
+        if not hc.in_teval_region(te["node"]):
+            continue
+        tv, yv = te["value"], ye["value"]
+        inner = vec_of(yv)
+        if not is_teval_elem(tv) or inner is None or interp_of(inner) is None:
+            continue     # initial-callback pairs are not interpolated
+        n += 1
+        key = "R-TEVAL-WINDOW:%s:site%d" % (hc.fn, n)
+        dirs = {"fwd", "bwd"}
+        comps = []   # (applies_in, kind)
+        for node, branch, cv in te.get("pc", []):
+            if not isinstance(cv, Poly):
+                continue
+            fa = is_forward_atom(cv)
+            if fa is not None:
+                fwd = fa if branch == "then" else (not fa)
+                dirs &= {"fwd"} if fwd else {"bwd"}
+                continue
+            if branch != "then":
+                continue
+            a = cv.single_atom()
+            if a and a in DEFS and DEFS[a][0] == "phi" and len(DEFS[a][1]) == 2:
+                # a flag computed by `if forward { A } else { B }`
+                v1, v2 = DEFS[a][1]
+                src = [ev for ev in if_vals if ev.get("v1") == v1 and ev.get("v2") == v2]
+                fwd_first = None
+                for ev in src:
+                    f2 = is_forward_atom(if_cond.get(id(ev["node"]), Poly()))
+                    if f2 is not None:
+                        fwd_first = f2
+                for leaf, when in ((v1, "fwd" if fwd_first else "bwd"), (v2, "bwd" if fwd_first else "fwd")):
+                    la = leaf.single_atom() if isinstance(leaf, Poly) else None
+                    k = kind(la, tv) if la else None
+                    if k and fwd_first is not None:
+                        comps.append(({when}, k))
+                    elif k:
+                        comps.append(({"fwd", "bwd"}, k))
+            elif a:
+                k = kind(a, tv)
+                if k:
+                    comps.append(({"fwd", "bwd"}, k))
+        probs = []
+        for d in sorted(dirs):
+            app = [k for when, k in comps if d in when]
+            if not app:
+                probs.append("no comparison of the requested time with the step start xold guards this sample when integrating %s" % ("forward" if d == "fwd" else "backward"))
+            elif any(k != d for k in app):
+                probs.append("when integrating %s the requested time is tested against xold in the %s form" % ("forward" if d == "fwd" else "backward",
+                                                                                                                 "backward (t <= xold + tol)" if d == "fwd" else "forward (t >= xold - tol)"))
+        if probs:
+            rep.violation("R-TEVAL-WINDOW", key, "; ".join(probs), sp(te["node"]))
+        else:
+            rep.ok("R-TEVAL-WINDOW", key, "t_eval[i] tested against xold in the direction-matching form (%s)" % "/".join(sorted(dirs)))
+    if n < 2:
+        rep.inconc("R-TEVAL-WINDOW", "R-TEVAL-WINDOW:%s:floor" % hc.fn, "only %d interpolated sampling sites found" % n)
+
+
 def r_nextidx_mono(rep, hc):
     body = hc.body["body"]
     key = "R-NEXTIDX-MONO:%s" % hc.fn
